@@ -61,6 +61,69 @@ def is_err(v):
     return v is not None
 
 
+def check_with_assist(s, timeout_ms):
+    """s.check(); when z3 answers unknown on these linear-integer + UF systems with 256-bit coefficients (it does,
+    where cvc5 needs a second), ask cvc5 for a model of the same SMT-LIB text, pin its values for the constants and
+    let z3 confirm: the model returned is always a z3 model of the original assertions"""
+    import subprocess, tempfile, re as _re
+    rr = s.check()
+    if rr == z3.sat:
+        return rr, s.model()
+    if rr != z3.unknown:
+        return rr, None
+    txt = s.to_smt2() + '\n(get-model)\n'
+    with tempfile.NamedTemporaryFile('w', suffix='.smt2', dir=OUT, delete=False) as f:
+        f.write(txt)
+        path = f.name
+    try:
+        r = subprocess.run(['cvc5', '--produce-models', '--tlimit=%d' % max(timeout_ms, 30000), path], capture_output=True, text=True, timeout=max(timeout_ms, 30000) / 1000 + 30)
+        out = r.stdout
+    except Exception:
+        out = ''
+    finally:
+        os.unlink(path)
+    if not out.startswith('sat'):
+        return z3.unknown, None
+    consts = {}
+    for d in s.assertions():
+        pass
+    decls = {}
+
+    def collect(t, seen):
+        if t.get_id() in seen:
+            return
+        seen.add(t.get_id())
+        if z3.is_const(t) and t.decl().kind() == z3.Z3_OP_UNINTERPRETED:
+            decls[t.decl().name()] = t
+        for c in t.children():
+            collect(c, seen)
+    seen = set()
+    for a in s.assertions():
+        collect(a, seen)
+    pins = []
+    for mm in _re.finditer(r'\(define-fun \|?([^\s|]+)\|? \(\) (Int|\(_ BitVec \d+\)) (.+)\)\s*$', out, _re.M):
+        name, sort, val = mm.group(1), mm.group(2), mm.group(3).strip()
+        if name not in decls:
+            continue
+        if sort == 'Int':
+            v = val.replace('(', '').replace(')', '').replace(' ', '')
+            try:
+                pins.append(decls[name] == int(v))
+            except ValueError:
+                pass
+        elif val.startswith('#b'):
+            pins.append(decls[name] == int(val[2:], 2))
+        elif val.startswith('#x'):
+            pins.append(decls[name] == int(val[2:], 16))
+    s.push()
+    for p_ in pins:
+        s.add(p_)
+    r2 = s.check()
+    m = s.model() if r2 == z3.sat else None
+    s.pop()
+    return (z3.sat, m) if m is not None else (z3.unknown, None)
+
+
 def solve_with_truth(e, pins, extra=(), timeout=20000, rounds=8):
     """exact model of the path condition after pinning integer symbols to concrete values (pins: list of
     (term, int)) with the uninterpreted curve functions / inverses replaced by their true values: first at the
@@ -81,12 +144,11 @@ def solve_with_truth(e, pins, extra=(), timeout=20000, rounds=8):
     for x in extra:
         s.add(x)
     for rnd in range(rounds):
-        rr = s.check()
+        rr, m = check_with_assist(s, timeout)
         if os.environ.get('VERIF_DEBUG'):
             print('  [truth round %d] %s' % (rnd, rr), file=sys.stderr)
         if rr != z3.sat:
             return None
-        m = s.model()
         consistent = True
         for key, u in list(e.known_points.items()):
             uv = m.eval(u, model_completion=True).as_long()
@@ -98,8 +160,9 @@ def solve_with_truth(e, pins, extra=(), timeout=20000, rounds=8):
                 # try to keep this group element where the model put it (the digest usually absorbs the change)
                 s.push()
                 s.add(u == uv)
-                if s.check() == z3.sat:
-                    m = s.model()
+                r3, m3 = check_with_assist(s, timeout)
+                if r3 == z3.sat:
+                    m = m3
                 else:
                     s.pop()
         for v, r, mm in e.inv_facts:
